@@ -53,6 +53,10 @@ def gen_case(rng):
               for j in range(rng.choice([0, 1, 1, 2]))]
     insts = [rng.randrange(len(subcls)) for _ in range(rng.randint(1, 3))] \
         if subcls else []
+    # array-map variables declared in the sub-program classes
+    subarr = [[[f"s{j}a{i}", rng.choice(FM)]
+               for i in range(rng.choice([0, 0, 1, 2]))]
+              for j in range(len(subcls))]
     # variable list: (id, kind, where, name, fmt)
     vs = []
     for n, f in mlocals:
@@ -68,6 +72,8 @@ def gen_case(rng):
     for i, k in enumerate(insts):
         for n, f in subcls[k]:
             vs.append([f"sub{i}", "local", n, f])
+        for n, f in subarr[k]:
+            vs.append([f"sub{i}", "array", n, f])
     writes = []
     for _ in range(rng.randint(1, 6)):
         t = rng.randrange(len(vs))
@@ -77,6 +83,7 @@ def gen_case(rng):
         writes.append([t, how, src, rng.randint(1, 100)])
     return dict(mlocals=mlocals, avars=avars, hvars=hvars, use_dict=use_dict,
                 subcls=subcls, insts=insts, vars=vs, writes=writes,
+                subarr=subarr, prelayout=rng.random() < 0.3,
                 initseed=rng.getrandbits(32))
 
 
@@ -121,10 +128,23 @@ def build(case):
     for i in range(nv):
         ns[f"o{i}"] = m.globalVar("Q")
     subclasses = []
+    subarr = case.get("subarr") or [[] for _ in case["subcls"]]
     for j, dl in enumerate(case["subcls"]):
-        subclasses.append(type(f"VfS{j}", (SubProgram,),
-                               {n: LocalVar(f) for n, f in dl}))
+        sns = {n: LocalVar(f) for n, f in dl}
+        sns.update({n: m.globalVar(f) for n, f in subarr[j]})
+        subclasses.append(type(f"VfS{j}", (SubProgram,), sns))
     subs = [subclasses[k]() for k in case["insts"]]
+    if case.get("prelayout") and subs:
+        # the same sub-program objects were laid out before, in another
+        # program with another order (a regrouped / restarted controller)
+        def preprogram(self):
+            self.r0 = 2
+            self.exit()
+        extra = [subclasses[0]()]
+        type("VfC04Pre", (XDP,), {"license": "GPL", "m": m,
+                                  "pv": m.globalVar("Q"),
+                                  "program": preprogram})(
+            subprograms=extra + subs[::-1])
     inits = []
     for i, (where, kind, n, f) in enumerate(case["vars"]):
         size = struct.calcsize(f)
